@@ -89,6 +89,26 @@ pub fn generate(s: &mut Session, tier: &str, rng: &mut Rng) {
         }
         s.mark_nontrivial();
     }
+    // ---- system level: a flow while another peer sits in its tls handshake gets what it gets alone
+    if tls_available() {
+        for base in protocol_ciphers(rng).into_iter().filter(|c| matches!((c.protocol, c.cipher), ("trojan", _) | ("vmess", "aes-128-gcm") | ("shadowsocks", "aes-256-gcm"))) {
+            for t in if thorough { vec!["tls", "wss"] } else { vec!["tls"] } {
+                let cfg = base.with(t);
+                s.begin_case(&format!("beside-a-stalled-handshake:{}", cfg.label()));
+                let Some(w) = cfg.start(s, false, 4) else { continue };
+                let script = format!("kind=socks5 host=127.0.0.1 up={} down={} seed={} close=target", sizes(rng, 20000), sizes(rng, 20000), rng.below(1 << 40));
+                let solo = s.run(&format!("e2e.tcp {} {}", w, script));
+                s.run(&format!("e2e.fault {} tls-stall -", w));
+                s.run(&format!("e2e.fault {} server-stall -", w));
+                let r = s.run(&format!("e2e.tcp {} {}", w, script));
+                if r != solo || field(&r, "down") != "ok" {
+                    s.oracle_fail(&format!("beside-a-stalled-handshake:{}", cfg.label()), &format!("a flow next to a peer stuck in its handshake: `{}`; alone: `{}`", r, solo));
+                }
+                s.run(&format!("e2e.stop {}", w));
+                s.mark_nontrivial();
+            }
+        }
+    }
     // ---- system level: alone, then all at once
     let all = protocol_ciphers(rng);
     let picks: Vec<Cfg> = if thorough { all } else { all.into_iter().filter(|c| matches!((c.protocol, c.cipher, c.users.as_str()), ("shadowsocks", "chacha20-ietf-poly1305", _) | ("shadowsocks", "2022-blake3-chacha20-poly1305", _) | ("shadowsocks", "2022-blake3-aes-256-gcm", "alice") | ("vmess", "aes-128-gcm", _) | ("trojan", _, _)) || c.users.starts_with("alice") && c.cipher.ends_with("256-gcm")).collect() };
